@@ -20,6 +20,7 @@ Genuine == {
   CAcert("R1",  "R1", "R1", "kR1", "kR1"),                 \* root
   CAcert("R2",  "R2", "R2", "kR2", "kR2"),                 \* second root
   CAcert("R1b", "R1", "R1", "kR1", "kR1"),                 \* R1 re-issued: same name and key, other certificate
+  CAcert("R1n", "R1n", "R1n", "kR1", "kR1"),               \* R1's key under another name
   CAcert("I1",  "I1", "R1", "kI1", "kR1"),                 \* intermediate under R1
   CAcert("I1x", "I1", "R2", "kI1", "kR2"),                 \* the same intermediate cross-signed by R2
   CAcert("I2",  "I2", "I1", "kI2", "kI1"),                 \* second-level intermediate
@@ -33,7 +34,8 @@ Genuine == {
   EE("LQ",  "I2", "kI2", {"server"}, "ok", {}),            \* precertificate issued by the CA itself
   EE("LNC", "I2", "kI2", {"server"}, "noncritical", {}),   \* malformed poison
   EE("LNN", "I2", "kI2", {"server"}, "nonnull", {}),
-  [EE("LCA", "I1", "kI1", {}, "none", {}) EXCEPT !.isCA = TRUE]      \* a CA certificate submitted as leaf
+  [EE("LCA", "I1", "kI1", {}, "none", {}) EXCEPT !.isCA = TRUE],     \* a CA certificate submitted as leaf
+  EE("LL",  "L1", "kL1", {"server"}, "none", {})           \* signed with the key of L1, which is not a CA
 }
 \* same fields, signature verifies under no key
 Twin(c) == [c EXCEPT !.id = c.id \o "~f", !.signer = "bad"]
@@ -47,8 +49,9 @@ Cert == [i \in CertIds |-> CHOOSE c \in AllCerts : c.id = i]
 Recs(s) == [i \in 1..Len(s) |-> Cert[s[i]]]
 Ids(p) == [i \in 1..Len(p) |-> p[i].id]
 
-\* which certificates a log trusts (TI: also an intermediate; TB, T1B: the re-issued root)
-TSets == [T1 |-> {"R1"}, T2 |-> {"R2"}, T12 |-> {"R1", "R2"}, TI |-> {"R1", "I1"}, TB |-> {"R1b"}, T1B |-> {"R1", "R1b"}]
+\* which certificates a log trusts (TI: also an intermediate; TB, T1B: the re-issued root; TN: the renamed root only)
+TSets == [T1 |-> {"R1"}, T2 |-> {"R2"}, T12 |-> {"R1", "R2"}, TI |-> {"R1", "I1"}, TB |-> {"R1b"}, T1B |-> {"R1", "R1b"},
+          TN |-> {"R1n"}]
 TNames == DOMAIN TSets
 TRecs(n) == {Cert[i] : i \in TSets[n]}
 
@@ -63,9 +66,10 @@ Bases == {
   <<"LE", "I2", "I1">>, <<"LE", "I2", "I1", "R1">>,
   <<"LX", "I2", "I1", "R1">>,
   <<"LNC", "I2", "I1">>, <<"LNC", "I2", "I1", "R1">>, <<"LNN", "I2", "I1", "R1">>,
+  <<"LL", "L1", "I1", "R1">>,
   <<"I2", "I1", "R1">>, <<"I1">>, <<"R1">>, <<"R1b">> }
 
-Insertable == {"U", "I1x", "I2", "P", "R2", "R1", "R1b", "I1"}
+Insertable == {"U", "I1x", "I2", "P", "R2", "R1", "R1b", "R1n", "I1"}
 
 DropAt(s, i) == SubSeq(s, 1, i - 1) \o SubSeq(s, i + 1, Len(s))
 InsertAt(s, i, x) == SubSeq(s, 1, i - 1) \o <<x>> \o SubSeq(s, i, Len(s))      \* x becomes element i
@@ -115,8 +119,7 @@ ASSUME PrintT(<<"OPTS", ToJson([k \in 1..NOpts |-> OptRow(k)])>>)
 ASSUME PrintT(<<"CERTS", ToJson(Genuine)>>)
 ASSUME PrintT(<<"TRUST", ToJson(TSets)>>)
 
-\* the options that pass a certificate's leaf filters (evaluated once per certificate)
-LeafOpts == [i \in CertIds |-> {k \in 1..NOpts : LeafFilters(Cert[i], Opt(k))}]
+OptTab == [k \in 1..NOpts |-> Opt(k)]
 
 (* ---------- state ---------- *)
 VARIABLE cs
@@ -125,25 +128,29 @@ Next == UNCHANGED cs
 
 rc == Recs(cs.ch)
 TT == TRecs(cs.T)
-ok == ChainOK(rc, TT)
-val == IF ok THEN LeafOpts[cs.ch[1]] ELSE {}
-adm(e) == IF ok /\ Kind(rc[1]) # "malformed" /\ ((Kind(rc[1]) = "precert") = (e = "add-pre-chain")) THEN val ELSE {}
+\* the verdict sets of a state: the options (indices into the table) under which the specification validates / admits
+Val(okv) == IF okv THEN {k \in 1..NOpts : ValidateWith(okv, rc[1], OptTab[k])} ELSE {}
+Adm(okv, v, e) == {k \in v : AdmitWith(okv, rc[1], OptTab[k], e)}
 
-\* the export is the specification's predicate (all options where the chain is in order, one otherwise: a chain
-\* that is not in order is refused whatever the options)
-ExportIsAdmit == \A k \in (IF ok THEN 1..NOpts ELSE {1}) :
-                    /\ (k \in val) = ValidateOK(rc, TT, Opt(k))
-                    /\ \A e \in Endpoints : (k \in adm(e)) = Admit(rc, TT, Opt(k), e)
-Laws == /\ PathLaw(rc, TT)
-        /\ CodeShape(rc, TT)
-        /\ ok => \A k \in 1..NOpts : OneEndpoint(rc, TT, Opt(k))
-        \* Admit => the path starts with the submitted leaf, contains the submission in order, ends in the trusted pool
-        /\ \A k \in val : \A p \in Paths(rc, TT) :
-              p[1] = rc[1] /\ SubSeq(p, 1, Len(rc)) = rc /\ Last(p) \in TT
+Laws == LET okv == ChainOK(rc, TT)
+            v == Val(okv)
+        IN /\ PathLaw(rc, TT)
+           /\ CodeShape(rc, TT)
+           /\ OneEndpoint(rc, TT, OptTab[1])
+           /\ Adm(okv, v, "add-chain") \cap Adm(okv, v, "add-pre-chain") = {}
+           /\ Kind(rc[1]) = "malformed" => \A e \in Endpoints : Adm(okv, v, e) = {}
+           \* Admit => the path starts with the submitted leaf, contains the submission in order, ends in the trusted pool
+           /\ (\E e \in Endpoints : Adm(okv, v, e) # {}) =>
+                 \A p \in Paths(rc, TT) : p[1] = rc[1] /\ SubSeq(p, 1, Len(rc)) = rc /\ Last(p) \in TT
+           \* the parameterized verdicts are the verdicts (spot check of the definitional identity)
+           /\ \A k \in {1, NOpts} : /\ (k \in v) = ValidateOK(rc, TT, OptTab[k])
+                                     /\ \A e \in Endpoints : (k \in Adm(okv, v, e)) = Admit(rc, TT, OptTab[k], e)
 
-Case == [ch |-> cs.ch, T |-> cs.T, tags |-> cs.tags, ok |-> ok,
-         kind |-> IF rc[1].parses THEN Kind(rc[1]) ELSE "unparsable",
-         paths |-> IF ok THEN {Ids(p) : p \in Paths(rc, TT)} ELSE {},
-         val |-> val, admC |-> adm("add-chain"), admP |-> adm("add-pre-chain")]
+Case == LET okv == ChainOK(rc, TT)
+            v == Val(okv)
+        IN [ch |-> cs.ch, T |-> cs.T, tags |-> cs.tags, ok |-> okv,
+            kind |-> IF rc[1].parses THEN Kind(rc[1]) ELSE "unparsable",
+            paths |-> IF okv THEN {Ids(p) : p \in Paths(rc, TT)} ELSE {},
+            val |-> v, admC |-> Adm(okv, v, "add-chain"), admP |-> Adm(okv, v, "add-pre-chain")]
 Export == PrintT(<<"CASE", ToJson(Case)>>)
 =============================================================================
